@@ -134,7 +134,8 @@ func cmdCheck(args []string) int {
 			seen[k] = true
 		}
 		for k, f := range w.Funcs {
-			if !seen[k] && f.Parent() == nil {
+			if !seen[k] && f.Parent() == nil && !w.InlineOnly(f) {
+				// (a helper that is only ever called statically is covered where it is executed in place)
 				keys = append(keys, k)
 			}
 		}
@@ -870,6 +871,12 @@ func cmdSeeded(args []string) int {
 		}
 		return rows[i].Property < rows[j].Property
 	})
+	for i := range rows {
+		if len(rows[i].Violations) > 5 {
+			n := len(rows[i].Violations) - 5
+			rows[i].Violations = append(rows[i].Violations[:5:5], fmt.Sprintf("... and %d more", n))
+		}
+	}
 	data, _ := json.MarshalIndent(rows, "", " ")
 	if *only == "" {
 		_ = os.WriteFile(filepath.Join(verifDir(), "seeded", "RESULTS.json"), data, 0644)
